@@ -3,6 +3,7 @@ C19 — Re-evaluation is deterministic, and a no-op for programs without assignm
 Model: `Model/Plan.lean` (cells, plan steps, `step` as repeated passes over the plan,
 and how evaluating a program builds the plan).
 -/
+import MechVerif.Gen.StepSkel
 import MechVerif.Model.Plan
 namespace MechVerif.Plan
 
@@ -250,3 +251,51 @@ example : (match execAll St.empty [.define false "x" (.bin .add (.lit 1) (.lit 2
     | some s => (s.cells, stepN s.plan 2 s.cells == s.cells) | none => ([], false)) = ([1, 2, 3, 3, 9], true) := by decide
 
 end MechVerif.Plan
+
+/-! ### the loops of `Interpreter::step` as they are written
+
+`Gen/StepSkel.lean` is regenerated from src/interpreter/src/interpreter.rs on every run (`tools/extract_step.py`); its
+theorem `C19_step_loops_as_written_ok` is a `decide` proof over the two extracted nests (profiling and plain). -/
+namespace MechVerif.StepSkel
+open MechVerif.Plan
+
+theorem visit_one (c : Cells) (s : PStep) : visit 1 c s = PStep.run c s := rfl
+
+theorem passes_fold (plan : List PStep) : ∀ (n : Nat) (c : Cells),
+    (List.range n).foldl (fun c _ => plan.foldl (visit 1) c) c = stepN plan n c := by
+  intro n
+  induction n with
+  | zero => intro c; rfl
+  | succ n ih =>
+    intro c
+    rw [List.range_succ_eq_map, List.foldl_cons, List.foldl_map]
+    have : plan.foldl (visit 1) c = runPlan c plan := by
+      unfold runPlan; congr 1
+    rw [this]
+    exact ih (runPlan c plan)
+
+/-- **An accepted loop nest is `stepN`**: a request for n steps runs n passes over the plan, each solving every
+    function once, in plan order — for every plan, every n (0 included: nothing runs) and every state. -/
+theorem C19_accepted_nest_is_stepN (sk : Skel) (h : skelOk sk = true) (plan : List PStep) (n : Nat) (c : Cells) :
+    runSkel sk plan n c = some (stepN plan n c) := by
+  simp only [skelOk, Bool.and_eq_true, decide_eq_true_eq, Bool.not_eq_true'] at h
+  obtain ⟨⟨⟨⟨⟨h1, h2⟩, h3⟩, h4⟩, h5⟩, _⟩ := h
+  unfold runSkel
+  simp only [h5, h1, Bool.or_false, Bool.not_true, Bool.false_eq_true, if_false, h2, h3, h4, passes, order]
+  rw [passes_fold]
+
+/-- the two nests written in the source are accepted, hence are `stepN` -/
+theorem C19_step_as_written_is_stepN (name : String) (sk : Skel) (hm : (name, sk) ∈ Gen.StepSkel.nests)
+    (plan : List PStep) (n : Nat) (c : Cells) : runSkel sk plan n c = some (stepN plan n c) := by
+  have h := Gen.StepSkel.C19_step_loops_as_written_ok.1
+  rw [List.all_eq_true] at h
+  exact C19_accepted_nest_is_stepN sk (h (name, sk) hm) plan n c
+
+/-! non-vacuity: an inclusive bound, a reversed walk, a second solve or an early exit are refused -/
+example : skelOk ⟨true, .inclusive, .forward, 1, false, true⟩ = false := by decide
+example : skelOk ⟨true, .exclusive, .reverse, 1, false, true⟩ = false := by decide
+example : skelOk ⟨true, .exclusive, .forward, 2, false, true⟩ = false := by decide
+example : skelOk ⟨true, .exclusive, .forward, 1, true, true⟩ = false := by decide
+example : runSkel ⟨true, .exclusive, .forward, 1, false, true⟩ [.addAssign 0 1] 3 [0, 5] = some [15, 5] := by decide
+
+end MechVerif.StepSkel
